@@ -416,7 +416,7 @@ def run_shard(ctx):
         ctx.case(repr(case), bool(nt))
         if i < 2:
             ctx.sample(case)
-        if (i & 0xF) == 0 and ctx.time_left() < (12 if quick else 200):
+        if (i & 0xF) == 0 and ctx.time_left() < ctx.budget_s * 0.24:
             break
     ns = 60 if quick else 3000
     for i in range(ns):
